@@ -21,7 +21,7 @@ IsVar(t) == t[1] = "v"
 IsAtom(t) == t[1] = "a"
 IsInt(t) == t[1] = "i"
 IsFloat(t) == t[1] = "f"
-F(k) == <<"f", k>>
+Fl(k) == <<"f", k>>
 IsNum(t) == t[1] = "i" \/ t[1] = "n" \/ t[1] = "f"
 IsCmp(t) == t[1] = "c"
 IsAtomic(t) == t[1] \in {"a", "i", "n", "f"}
